@@ -11,6 +11,7 @@
                   not a slice of the send buffer, is not held by another owner, and its bytes [lo,hi)
                   are exactly the bytes that were handed out.
      C08_invariant  the same from any state satisfying the pipe invariant.
+     C08_duplex   the same for both directions of a stream pair, Stream.ReleaseReadAndReuse (with its swap) included.
      C08_release_frees   after ReleasePreviousRead every parked (fully consumed, leased) shm slot is in
                   a free list again, the parked list and the leases are empty.
      C08_lease_only_fast_read / _peek   a lease is created only when the requested bytes lie inside
@@ -18,8 +19,8 @@
      C08_bytes_stable*   no operation except a writer op / a fill by a slot's owner changes a payload byte.
    Not modelled: Close leaves parked slices allocated (C09's subject: they stay owned, never free). *)
 From Coq Require Import List ZArith Lia Bool Arith.
-From Shm Require Import Gen.Consts Model.LinkedBuffer Proofs.LinkedBufferProofs Proofs.LinkedBufferStore
-  Proofs.LinkedBufferWriter Proofs.LinkedBufferXfer Proofs.LinkedBufferPipe.
+From Shm Require Import Gen.Consts Gen.SwitchC06 Model.LinkedBuffer Proofs.LinkedBufferProofs Proofs.LinkedBufferStore
+  Proofs.LinkedBufferWriter Proofs.LinkedBufferXfer Proofs.LinkedBufferPipe Proofs.LinkedBufferDuplex.
 Import ListNotations.
 Close Scope Z_scope.
 Open Scope nat_scope.
@@ -30,6 +31,13 @@ Theorem C08 : forall cfg ops s' le, cfg_ok cfg -> run (init_sys cfg) ops = Ok s'
   /\ ~ In (l_off le) (offs (slices (snd s'))) /\ ~ In (l_off le) (offs (oth s')).
 Proof. exact leases_safe. Qed.
 Print Assumptions C08.
+
+(* both directions of a stream pair, Stream.ReleaseReadAndReuse included (guard: never with unflushed writes) *)
+Theorem C08_duplex : forall cfg ops D' le, cfg_ok cfg -> dguard spec0 spec0 ops -> drun (init_dsys cfg) ops = Some D' ->
+  In le (leases (h_rcv (d_0 D')) ++ leases (h_rcv (d_1 D'))) -> l_shm le = true ->
+  ~ In (l_off le) (frees (d_mem D')) /\ lease_bytes (d_mem D') le = l_bytes le.
+Proof. exact duplex_leases_safe. Qed.
+Print Assumptions C08_duplex.
 
 Theorem C08_invariant : forall ext Eg s sp idss le, Inv ext Eg s sp idss -> In le (leases (rcv s)) -> l_shm le = true ->
   ~ In (l_off le) (frees (mem s)) /\ lease_bytes (mem s) le = l_bytes le
